@@ -309,6 +309,10 @@ func transferPre(state *IntraAnalysisState, loc ssa.Instruction, in ssa.Value, o
 
 // transferCopy propagates the marks for a load, which only requires copying over marks and paths
 func transferCopy(t *IntraAnalysisState, loc ssa.Instruction, in ssa.Value, out ssa.Value) {
+	// The address of a global is read: the value obtained gives access to the data stored in the global
+	if glob, ok := in.(*ssa.Global); ok {
+		t.markValue(loc, out, "", t.flowInfo.GetNewMark(loc.(ssa.Node), Global, glob, NonIndexMark))
+	}
 	pos, ok := t.flowInfo.GetPos(loc, in)
 	if !ok {
 		return
